@@ -13,7 +13,9 @@ from c05_dump import CLASS_NAMES
 
 CLS = {n: getattr(polymath, n) for n in CLASS_NAMES}
 UNITS = {'KM': Units.KM, 'SEC': Units.SECONDS if hasattr(Units, 'SECONDS') else Units.KM, 'DEG': Units.DEG,
-         'UNITLESS': Units.UNITLESS, 'KMS': Units.KM / Units.SECONDS if hasattr(Units, 'SECONDS') else Units.KM}
+         'UNITLESS': Units.UNITLESS, 'KMS': Units.KM / Units.SECONDS if hasattr(Units, 'SECONDS') else Units.KM,
+         # dimensionless ratios: exponents (0,0,0) like UNITLESS, but a scale factor != 1
+         'M_KM': Units.M / Units.KM, 'DEG_RAD': Units.DEG / Units.RAD}
 
 SKIP = {'__init__', '__new__', '__getstate__', '__setstate__', '__repr__', '__str__', '__class__', '__reduce__',
         '__reduce_ex__', '__init_subclass__', '__subclasshook__', '__dir__', '__sizeof__', '__format__',
@@ -76,6 +78,17 @@ _UNIT_CONSTS = [(u, dict(u.__dict__)) for u in vars(Units).values() if isinstanc
 def restore_globals():
     """undo what a program may have done to shared state (class constants, pickle defaults)"""
     _pickler.DEFAULT_PICKLE_DIGITS, _pickler.DEFAULT_PICKLE_REFERENCE = _PICKLE_DEFAULTS
+    restore_consts()
+    for u, saved in _UNIT_CONSTS:
+        if u.__dict__ != saved:
+            u.__dict__.clear()
+            u.__dict__.update(saved)
+    Qube.PREFER_BUILTIN_TYPES = False
+    Qube.DISABLE_CACHE = False
+
+
+def restore_consts():
+    """class constants (Scalar.ZERO ...) back to their state at import"""
     for obj, saved, derivs in _CONSTS:
         d = obj.__dict__
         if d.keys() != saved.keys() or any(d[k] is not saved[k] for k in saved if k != '_cache_') \
@@ -89,12 +102,6 @@ def restore_globals():
             for k in [k for k in dv.__dict__ if k.startswith('d_d')]:
                 del dv.__dict__[k]
             dv.__dict__['_derivs_'] = {}
-    for u, saved in _UNIT_CONSTS:
-        if u.__dict__ != saved:
-            u.__dict__.clear()
-            u.__dict__.update(saved)
-    Qube.PREFER_BUILTIN_TYPES = False
-    Qube.DISABLE_CACHE = False
 
 
 # ------------------------------------------------------------------------------------------------- building
@@ -161,7 +168,8 @@ def mk_start(s):
     for k, dd in sorted(s.get('derivs', {}).items()):
         dv = mk_array({'shape': shape + numer + dd, 'dtype': 'float', 'seed': seed + 101 + len(k)})
         dcls = cls if cls.DERIVS_OK else Scalar
-        obj.insert_deriv(k, dcls(dv, mk_mask(s.get('dmask', 'F'), shape, seed + 5), drank=len(dd)))
+        dkw = {'units': UNITS[s['dunits']]} if s.get('dunits') and dcls.UNITS_OK else {}
+        obj.insert_deriv(k, dcls(dv, mk_mask(s.get('dmask', 'F'), shape, seed + 5), drank=len(dd), **dkw))
     if s.get('readonly'):
         obj = obj.as_readonly()
     return obj
@@ -331,6 +339,9 @@ def run_program(prog, table):
                         signal.setitimer(signal.ITIMER_REAL, 0)
                     name = step['name']
                     if raised:
+                        # a rejected call may leave its operands changed (property C19); class constants are fetched
+                        # again by later `const` steps, so they are put back at once
+                        restore_consts()
                         for j, o in enumerate(pool):
                             d = D.dump(o)
                             if last.get(id(o), (None,))[0] != repr(d):
@@ -568,7 +579,8 @@ def gen_param(rng, pname, param, ctx, npool):
             return {'v': None} if rng.random() < 0.3 else {'d': {}}
         return {'d': {k: gen_obj_arg(rng, npool, ctx) for k in rng.sample(KEYS, rng.choice([1, 2]))}}
     if pname == 'units':
-        return rng.choice([{'v': None}, {'u': 'KM'}, {'u': 'DEG'}, {'u': 'UNITLESS'}, {'u': 'KMS'}, {'v': False}])
+        return rng.choice([{'v': None}, {'u': 'KM'}, {'u': 'DEG'}, {'u': 'UNITLESS'}, {'u': 'KMS'}, {'v': False},
+                           {'u': 'M_KM'}, {'u': 'DEG_RAD'}])
     if pname == 'dtype':
         return {'v': rng.choice(['float', 'int', 'bool', 'float', 'int32', 'zz'])}
     if pname in ('numer', 'denom'):
@@ -699,3 +711,54 @@ def gen_program(rng, clsname, name, depth):
 
 MUTATORS = {'insert_deriv', 'insert_derivs', 'delete_deriv', 'delete_derivs', 'set_units', 'as_readonly', '__setitem__',
             'match_readonly', 'require_writable', 'set_pickle_digits', 'set_order'}
+
+
+# ------------------------------------------------------------------------------------------------- in-place operators x units
+INPLACE_OPS = ['__iadd__', '__isub__', '__imul__', '__idiv__', '__itruediv__', '__ifloordiv__', '__imod__',
+               '__iand__', '__ior__', '__ixor__']
+OPERAND_UNITS = [None, 'UNITLESS', 'M_KM', 'DEG_RAD', 'KM', 'SEC']
+# an operand class of the same item shape that PERMITS units (the in-place operators take their units from it)
+TWIN = {'Quaternion': ('Vector', [4]), 'Matrix3': ('Matrix', [3, 3]), 'Boolean': ('Scalar', []), 'Vector3': ('Vector', [3]),
+        'Pair': ('Vector', [2])}
+
+
+def gen_inplace_units(rng, reps):
+    """systematic programs `target <op>= operand` for every class x every in-place operator x operand units drawn from
+    {None, UNITLESS, dimensionless ratios with a factor != 1, ordinary units} x operand kind (a Scalar / an object
+    of the target's item shape from a class that permits units), with and without derivatives on either side.
+    The well-formedness clauses judged afterwards include `cls_units` (units only where UNITS_OK)."""
+    progs = []
+    for cn in CLASS_NAMES:
+        ops = [n for n in INPLACE_OPS if n in api_of(cn)]
+        for name in ops:
+            for u in OPERAND_UNITS:
+                for kind in ('scalar', 'twin'):
+                    for _ in range(reps):
+                        shape = rng.choice([[], [2], [2, 3], [1]])
+                        tgt = gen_start(rng, cn, shape, plain=True)
+                        if CLS[cn].FLOATS_OK and rng.random() < 0.8:
+                            tgt['dtype'] = 'float'
+                        tgt['mask'] = rng.choice(['F', 'F', 'A'] if shape else ['F', 'F', 'T'])
+                        tgt.pop('pyscalar', None)
+                        if not shape and rng.random() < 0.4:
+                            tgt['pyscalar'] = True
+                        if CLS[cn].DERIVS_OK and rng.random() < 0.3:
+                            tgt['derivs'] = {rng.choice(KEYS): rng.choice([[], [2]])}
+                        if kind == 'scalar':
+                            ocn, item = 'Scalar', []
+                        else:
+                            ocn, item = TWIN.get(cn, (cn if cn != 'Qube' else 'Scalar', tgt['numer']))
+                            if CLS[ocn].NUMER is None and ocn != 'Scalar':
+                                item = tgt['numer']
+                        opd = {'cls': ocn, 'shape': rng.choice([shape, []]), 'numer': list(item),
+                               'dtype': rng.choice(['posfloat', 'posfloat', 'float', 'int']), 'seed': rng.randrange(10 ** 6),
+                               'mask': 'F'}
+                        if u is not None:
+                            opd['units'] = u
+                        if rng.random() < 0.35:
+                            opd['derivs'] = {rng.choice(KEYS): rng.choice([[], [2]])}
+                            if u is not None and rng.random() < 0.5:
+                                opd['dunits'] = u           # the derivative operand carries the units as well
+                        step = {'name': name, 'how': 'method', 'tgt': {'p': 0}, 'args': [{'p': 1}], 'kwargs': {}}
+                        progs.append((cn, name, u or 'None', {'starts': [tgt, opd], 'steps': [step]}))
+    return progs
